@@ -367,7 +367,46 @@ def run(rc):
 
 
 def replay(data):
-    from ..runner import Merge
+    """Re-executes one recorded case on the current tree: exit 1 if it still misbehaves."""
+    import tatsu
+    from tatsu.exceptions import GrammarError, ParseException
     d = data['detail']
-    print(d)
+    sig = data.get('signature', '')
+    text = d['grammar']
+    print(text)
+    signal.signal(signal.SIGALRM, _alarm)
+    if 'input' in d:
+        model = tatsu.compile(text)
+        signal.setitimer(signal.ITIMER_REAL, 10.0)
+        try:
+            print('parse ->', model.parse(d['input'], start=d.get('start') or model.rules[0].name))
+        except ParseException as e:
+            print('parse failed (bounded):', type(e).__name__)
+        except (RecursionError, Watchdog) as e:
+            print(f'VIOLATION property=C16 replay=reproduced ({type(e).__name__} on input {d["input"]!r})')
+            return 1
+        finally:
+            signal.setitimer(signal.ITIMER_REAL, 0)
+        return 0
+    if sig.startswith('detection/'):
+        try:
+            tatsu.compile('@@left_recursion :: False\n\n' + text)
+            raised = False
+        except GrammarError:
+            raised = True
+        want = bool(d.get('left_cycle_rules'))
+        print('GrammarError raised:', raised, '; independent analysis finds a left cycle:', want)
+        if raised != want:
+            print('VIOLATION property=C16 replay=reproduced')
+            return 1
+        return 0
+    if sig.startswith('flags/'):
+        model = tatsu.compile(text)
+        r = model.rulemap[d['rule']]
+        print(d['rule'], 'is_lrec', r.is_lrec, 'is_memo', r.is_memo)
+        if r.is_lrec or not r.is_memo:
+            print('VIOLATION property=C16 replay=reproduced')
+            return 1
+        return 0
+    print('replay: nothing executable in this record')
     return 1
